@@ -20,6 +20,9 @@ units += main_unit("C06_mod_b", "harness/C06_mod.cpp", 2)
 units += main_unit("C06_sort", "harness/C06_sort.cpp")
 units += main_unit("C06_set", "harness/C06_set.cpp")
 units += main_unit("C06_numeric", "harness/C06_numeric.cpp", quick=4, thorough=8)
+units += main_unit("C06_moveonly", "harness/C06_moveonly.cpp", quick=4, thorough=8)
+units.append(Unit("C06_probe_stable_sort_moveonly", "harness/C06_moveonly.cpp", defs=["-DC06_MO_PART=2"],
+                  flavours={"quick": ["asan-cc"], "thorough": ["asan-cc"]}, shards={"quick": 2, "thorough": 4}))
 for k, nm in PROBES.items():
     units.append(Unit("C06_probe_" + nm, "harness/C06_probe.cpp", defs=[f"-DC06_PROBE={k}"],
                       flavours={"quick": ["asan-cc"], "thorough": ["asan-cc"]}, shards={"quick": 2, "thorough": 4}))
@@ -45,5 +48,5 @@ P = dict(
     floor={"quick": 3000000, "thorough": 30000000},
     assumptions=["libstdc++ 12 <algorithm>/<numeric> are a correct reference for the specified part of each result",
                  "gcc 12 ASan/UBSan report every out-of-block access adjacent to an exact-size heap block",
-                 "element type is a small copyable/movable struct (key, tag) and long long/int/unsigned char for numeric; other element types are not exercised"],
+                 "element types: a small copyable struct (key, tag), a move-only twin for the permuting algorithms, long long/int/unsigned char for numeric; other element types are not exercised"],
 )
